@@ -381,6 +381,20 @@ fn run(case: &mut Case) -> Result<Outcome, String> {
         }
     }
     let tau = if refine { TAU_REFINE } else if degree <= 3 { TAU_CLOSED } else { TAU_PLAIN };
+    // relative spread of the three roots of a cubic about their centroid, from the depressed form y^3 + P y + Q
+    let near_triple = degree == 3 && {
+        let a3 = coef[3];
+        let (p, q, r) = (crate::refla::cdiv(coef[2], a3), crate::refla::cdiv(coef[1], a3), crate::refla::cdiv(coef[0], a3));
+        let p2 = crate::refla::cmul(p, p);
+        let bp = crate::refla::csub(q, (p2.0 / 3.0, p2.1 / 3.0));
+        let p3 = crate::refla::cmul(p2, p);
+        let pq = crate::refla::cmul(p, q);
+        let bq = (2.0 * p3.0 / 27.0 - pq.0 / 3.0 + r.0, 2.0 * p3.1 / 27.0 - pq.1 / 3.0 + r.1);
+        let spread = cabs(bp).sqrt().max(cabs(bq).cbrt());
+        let kappa = spread / (cabs(p) / 3.0).max(1e-300);
+        (1e-5..=3e-2).contains(&kappa)
+    };
+    let mut d17_hit = false;
     if failure.is_none() {
         for (k, z) in got.iter().enumerate() {
             let zc = (z.real, z.imag);
@@ -391,6 +405,12 @@ fn run(case: &mut Case) -> Result<Outcome, String> {
             }
             crate::calib::note(if refine { "c10 resid/unit refine" } else { "c10 resid/unit plain" }, pz / unit, || format!("deg {} {} {}", degree, g.class, if g.real { "f64" } else { "cmplx" }));
             if !(pz <= tau * unit) {
+                // known finding D17: the unrefined closed form of a cubic whose three roots lie within 1e-5 .. 3e-2 of their
+                // centroid (relative) - decided from the coefficients alone; gross errors (above 1e-2 units) are still failures
+                if near_triple && !refine && pz <= 1e-2 * unit {
+                    d17_hit = true;
+                    continue;
+                }
                 failure = Some(format!("value {} = {:?} is not a root: |p(z)| = {:.3e} > {:.1e} * max|a_k| * max(1,|z|)^n = {:.3e} (all: {:?})", k, z, pz, tau, tau * unit, got));
                 break;
             }
@@ -453,6 +473,12 @@ fn run(case: &mut Case) -> Result<Outcome, String> {
         if !sig.in_sync {
             crate::calib::note("c10 replica out of sync on a passing case (count)", 1.0, || format!("{:?}", coef));
         }
+    }
+    if failure.is_none() && d17_hit && case.findings.is_known("C10", "D17-cardano-near-triple-cluster") {
+        return Ok(Outcome::Known(
+            "D17-cardano-near-triple-cluster",
+            "refine = false, degree 3, the three roots within 1e-5 .. 3e-2 (relative) of their centroid: the closed form (Cardano with d0, d1 formed by cancelling subtractions) returns values with a normwise backward error of 1e-5 .. 1e-4 - with refinement the same inputs reach 1e-16".into(),
+        ));
     }
     let Some(msg) = failure else { return Ok(Outcome::Pass) };
 
